@@ -394,6 +394,31 @@ def funcstmt (cs : Bool) : (brk cont : String) → Stmt → SCtx → SOut
     let oa := lowerAddr cs oe.ctx.slots oe.ctx.ctx (c.slots.getD arr 0) t idx
     ⟨oe.items ++ oa.items ++ [.ins (.op none (.store (storeOf t)) [oe.val, oa.val])], [],
       oe.ctx.upd oa.ctx, [], none⟩
+  | _, _, .pload dst dt k t _ _ idx, c =>
+    -- `p` is an identifier of pointer type: its value is loaded (`funcload`), then the offset, `add`, the
+    -- element is loaded, converted and stored to `x`
+    let c0 := (funcopen c).2
+    let op := funcinst c0.ctx (.load .l) .l [.tmp (tmpName (c.slots.getD k 0))]
+    let oo := funcexpr2 cs c0.slots (offOf t idx) op.ctx
+    let oa := funcinst oo.ctx .add .l [op.val, oo.val]
+    let ol := funcinst oa.ctx (.load (loadOf cs t)) (cls t) [oa.val]
+    let ov : Out := if dt = t then ⟨[], ol.val, ol.ctx⟩ else convert cs ol.ctx dt t ol.val
+    ⟨(funcopen c).1 ++ op.items ++ oo.items ++ oa.items ++ ol.items ++ ov.items ++
+        [storeIns dt ov.val (c.slots.getD dst 0)], [], c0.upd ov.ctx, [], none⟩
+  | _, _, .callp dst rt fn pargs args, c =>
+    -- as `call`; an array argument decays to the address of its slot: no instruction, class `l`
+    let c0 := (funcopen c).2
+    let la := lowerArgs cs c0.slots args c0.ctx
+    let res := tmpName (la.2.2.lastid + 1)
+    let pa : List (Qbe.Ty × Val) := pargs.map fun a => (.base .l, .tmp (tmpName (c.slots.getD a.1 0)))
+    let callIns : Item := .ins (.call (some (res, .base (cls rt))) (.glob fn false) (pa ++ la.2.1) none)
+    let c1 : Ctx := ⟨la.2.2.lastid + 1, la.2.2.blockid, la.2.2.cur⟩
+    match dst with
+    | none => ⟨(funcopen c).1 ++ la.1 ++ [callIns], [], c0.upd c1, [], none⟩
+    | some (i, t) =>
+      let ov : Out := if t = rt then ⟨[], .tmp res, c1⟩ else convert cs c1 t rt (.tmp res)
+      ⟨(funcopen c).1 ++ la.1 ++ [callIns] ++ ov.items ++ [storeIns t ov.val (c.slots.getD i 0)], [],
+        c0.upd ov.ctx, [], none⟩
   | _, cont, .switch_ e b, c =>
     -- b[0] = mkblock("switch_cond"); b[1] = mkblock("switch_join"); v = funcexpr(f, e); funcjmp(f, b[0]);
     -- body with breaklabel = b[1]; funcjmp(f, b[1]); funclabel(f, b[0]); funcswitch; funclabel(f, b[1])
